@@ -23,4 +23,6 @@ def jobs(tier, ws, prop='C05'):
                       defines=['-DSTRIDE0=%d' % st0],
                       canaries=['coll_grew', 'indep_grew', 'erange', 'swapped_in_place', 'failure_reported', 'zero_req'], unwind=26, kind='proof', object_bits=11, timeout=900,
                       assumptions=['put_varm: callee contracts of getput_callees.h are assumed unless listed as enforced; instances: ndims=2, record-dimension stride enumerated, no intra-node aggregation (my_aggr<0)']))
+    import C02
+    js += C02.commit_jobs(tier, prop, only=[(2, 2), (3, 5)] if tier == 'quick' else None) if prop == 'C05' else []   # F20: record count covers every selected record put
     return js
